@@ -10,12 +10,19 @@ Deepening round (sections at the end of this file): `Model/ExtLife.lean` (the li
 `ExternalTensor` object over call histories and a changing file system; `C04_ext_*`, helper
 `Lemmas/ExtLife.lean`), `Model/Strided.lean` (strided array / torch memory reduced to logical order
 by the model; `C04_strided_*`, helper `Lemmas/Strided.lean`) and `Model/StrTensor.lean` (STRING
-tensors; `C04_string_*`).  Still differential only: `ir.tensor` on Python numbers / nested lists.
+tensors; `C04_string_*`).
+
+Second deepening round (last sections): `Model/PyTensor.lean` (`ir.tensor` on plain Python data: dtype
+inference, shape discovery and scalar conversion; `C04_pytensor_*`, helper `Lemmas/PyTensor.lean`) and
+the bounds checks of the numpy / torch constructors (`C04_strided_npcheck`, helper
+`Lemmas/StridedBounds.lean`), which discharge the `inBounds` hypothesis of the strided theorems.
 -/
 import IrVerif.Lemmas.Pack
 import IrVerif.Lemmas.TensorReprAgree
 import IrVerif.Lemmas.ExtLife
 import IrVerif.Lemmas.Strided
+import IrVerif.Lemmas.StridedBounds
+import IrVerif.Lemmas.PyTensor
 import IrVerif.Model.StrTensor
 
 namespace IrVerif.Pack
@@ -694,3 +701,243 @@ example : pyTensor [] [0] false = .valueError := rfl
 example : pyTensor [] [1, 0] false = .numeric := rfl
 example : PyElem.encode (.bytes [97, 0]) = [97, 0] := rfl
 end IrVerif.StrTensor
+
+
+/-! ## Second deepening round: the constructors' bounds checks discharge `inBounds` -/
+
+namespace IrVerif.Strided
+open IrVerif.Pack IrVerif.TensorRepr
+
+/-- **C04_strided_npcheck**: `inBounds`, the hypothesis of `C04_strided_agree` / `C04_strided_torch`,
+    follows from the bounds check the constructors themselves perform: numpy's
+    `ndarray(shape, dtype, buffer, offset, strides)` (`PyArray_CheckStrides`: the lowest corner
+    `offset + Σ min(0, stride_i (shape_i - 1))` is not negative and the highest corner plus the
+    item size does not exceed the buffer) over a NON-EMPTY buffer, and `torch.as_strided` (no
+    negative stride, the last item ends inside the storage).  `npCheck` / `torchCheck` are compared
+    with the installed numpy / torch on random descriptions (half of them out of bounds) on every
+    run.  The buffer must be non-empty because numpy substitutes the array's own nominal size for
+    an empty buffer (`C04_strided_npcheck_empty_witness`). -/
+theorem C04_strided_npcheck (a : Arr) :
+    (a.npCheck = true → a.storage ≠ [] → a.inBounds = true) ∧
+    (a.torchCheck = true → a.inBounds = true) ∧
+    (a.strides.length = a.shape.length → a.spanOk = true → a.inBounds = true) :=
+  ⟨npCheck_inBounds a, torchCheck_inBounds a, spanOk_inBounds a⟩
+
+/-- **C04_strided_npcheck_empty_witness** (observation D383, why `storage ≠ []` is a hypothesis):
+    over an EMPTY buffer numpy's check passes for strides that reach outside it. -/
+theorem C04_strided_npcheck_empty_witness :
+    ({ shape := [2], strides := [1], offset := 0, storage := [], itemsize := 1 } : Arr).npCheck = true ∧
+    ({ shape := [2], strides := [1], offset := 0, storage := [], itemsize := 1 } : Arr).inBounds = false ∧
+    ({ shape := [2], strides := [1], offset := 0, storage := [], itemsize := 1 } : Arr).torchCheck = false := by
+  decide
+
+/-- the strided agreement theorem with the constructor's own check as hypothesis -/
+theorem C04_strided_agree_npcheck (d : DType) (bw : Nat) (a : Arr) (nd : Bool) (hbw : d.bitwidth = some bw)
+    (hisz : a.itemsize = npItemBytes d) (hck : a.npCheck = true) (hne : a.storage ≠ [])
+    (hbytes : ∀ b ∈ a.storage, b < 256) (hnb : (nd && a.bigEndian) = false) :
+    Legal d a.shape bw (obsBits bw a.units) (a.toRep d nd) ∧
+    a.tobytes d nd = .ok (packLE bw (obsBits bw a.units)) := by
+  have R := (C04_strided_agree d bw a nd hbw hisz (npCheck_inBounds a hck hne) hbytes).2.2 hnb
+  exact ⟨R.2.1, R.2.2⟩
+
+-- the checks are not trivially true: a transposed view passes, a too short buffer fails
+example : wT.npCheck = true ∧ wT.torchCheck = true := by decide
+example : ({ shape := [2], strides := [2], offset := 0, storage := [1, 2, 3], itemsize := 2 } : Arr).npCheck = false := by
+  decide
+example : ({ shape := [3], strides := [-1], offset := 2, storage := [7, 8, 9], itemsize := 1 } : Arr).npCheck = true := by
+  decide
+example : ({ shape := [3], strides := [-1], offset := 1, storage := [7, 8, 9], itemsize := 1 } : Arr).npCheck = false := by
+  decide
+
+end IrVerif.Strided
+
+/-! ## Second deepening round: `ir.tensor` on plain Python data (`Model/PyTensor.lean`)
+
+`pyTensor v dt` is what `ir.tensor(value, dtype)` returns for a tree `v` of Python scalars (None, bool,
+int, float, complex, str, bytes) in nested lists / tuples.  `castLeaf d` is the conversion of one
+scalar into one element of the numpy type of `d` (numpy / ml_dtypes rules, compared with the
+installed packages on every run); `npShape` the shape numpy discovers. -/
+
+namespace IrVerif.PyTensor
+open IrVerif.Pack IrVerif.TensorRepr IrVerif.Strided
+
+theorem build_numeric {v : PyVal} {d d' : DType} {dims : List Nat} {elems : List Nat}
+    (h : build v d = .numeric d' dims elems) :
+    d' = d ∧ npShape v = some dims ∧ castAll d (leaves v) = .ok elems := by
+  unfold build at h
+  split at h
+  · cases h
+  · rename_i ds hs
+    split at h
+    · rename_i xs hx
+      simp only [PyResult.numeric.injEq] at h
+      obtain ⟨rfl, rfl, rfl⟩ := h
+      exact ⟨rfl, hs, hx⟩
+    · cases h
+    · cases h
+
+/-- every array-backed result comes out of `build` -/
+theorem pyTensor_numeric {v : PyVal} {dt : Option DType} {d : DType} {dims : List Nat} {elems : List Nat}
+    (h : pyTensor v dt = .numeric d dims elems) :
+    build v d = .numeric d dims elems ∧ (∀ d0, dt = some d0 → d = d0) := by
+  unfold pyTensor at h
+  split at h
+  · cases h
+  · split at h
+    · cases h
+    · cases h
+    · rename_i d0 _ _
+      have := (build_numeric h).1
+      subst this
+      exact ⟨h, fun d1 h1 => by cases h1; rfl⟩
+    · split at h
+      · cases h
+      · rename_i d0 _
+        have := (build_numeric h).1
+        subst this
+        exact ⟨h, fun d1 h1 => by cases h1⟩
+      · split at h
+        · cases h
+        · split at h
+          · rename_i d0 _
+            have := (build_numeric h).1
+            subst this
+            exact ⟨h, fun d1 h1 => by cases h1⟩
+          · cases h
+
+/-- **C04_pytensor_declared**: whenever `ir.tensor(value, dtype=d)` returns an array-backed tensor
+    it reports exactly the DECLARED dtype `d`, the shape is the nesting of the value, and the
+    elements are the value's scalars converted one by one to the numpy type of `d`. -/
+theorem C04_pytensor_declared (v : PyVal) (d d' : DType) (dims : List Nat) (elems : List Nat)
+    (h : pyTensor v (some d) = .numeric d' dims elems) :
+    d' = d ∧ npShape v = some dims ∧ castAll d (leaves v) = .ok elems := by
+  obtain ⟨hb, hd⟩ := pyTensor_numeric h
+  have := hd d rfl
+  subst this
+  exact build_numeric hb
+
+/-- **C04_pytensor_rowmajor**: with or without a dtype, the array-backed tensor `ir.tensor` returns
+    has the shape numpy discovers from the nesting, `prod shape` elements, and its `k`-th element
+    (C order) is the conversion of the scalar at the multi-index `unravel shape k` of the nested
+    value, `value[i0][i1]...`: the specification side (`getAt`, `unravel`) does not mention the
+    depth-first assignment walk of the model. -/
+theorem C04_pytensor_rowmajor (v : PyVal) (dt : Option DType) (d : DType) (dims : List Nat)
+    (elems : List Nat) (h : pyTensor v dt = .numeric d dims elems) :
+    npShape v = some dims ∧ elems.length = prod dims ∧
+    ∀ k, k < prod dims → ∃ l x, getAt v (unravel dims k) = some l ∧ elems[k]? = some x ∧ castLeaf d l = .ok x := by
+  obtain ⟨_, hs, hc⟩ := build_numeric (pyTensor_numeric h).1
+  obtain ⟨hl, hk⟩ := castAll_ok d (leaves v) elems hc
+  refine ⟨hs, by rw [hl, leaves_length hs], ?_⟩
+  intro k hklt
+  obtain ⟨l, hlk, hg⟩ := leaves_getElem hs k hklt
+  obtain ⟨x, hx, hcx⟩ := hk k l hlk
+  exact ⟨l, x, hg, hx, hcx⟩
+
+/-- **C04_pytensor_agree**: the agreement theorem.  The tensor `ir.tensor(value, dtype)` returns for
+    numeric Python data is a LEGAL array-backed representation of the logical tensor (element type
+    `d`, the discovered shape, the converted scalars masked to the bit width): it reports `d` and the
+    shape, has `nbytes = ceil(size * bw / 8)`, decodes to those elements and returns their canonical
+    little-endian packed bytes from `tobytes()` / `tofile()` -- so by `C04_all_agree` it agrees
+    with every other representation of the same elements, in particular with
+    `ir.Tensor(np.array(value, dtype))`, which is the same representation. -/
+theorem C04_pytensor_agree (v : PyVal) (dt : Option DType) (d : DType) (dims : List Nat) (elems : List Nat)
+    (bw : Nat) (h : pyTensor v dt = .numeric d dims elems) (hw : ∀ l ∈ leaves v, l.wf = true)
+    (hbw : d.bitwidth = some bw) :
+    WF d dims bw (obsBits bw elems) ∧ Legal d dims bw (obsBits bw elems) (.array d dims elems) ∧
+    Agrees d dims bw (obsBits bw elems) (.array d dims elems) := by
+  obtain ⟨_, hs, hc⟩ := build_numeric (pyTensor_numeric h).1
+  obtain ⟨hl, _⟩ := castAll_ok d (leaves v) elems hc
+  have hu : ∀ e ∈ elems, e < 256 ^ npItemBytes d := by
+    intro e he
+    obtain ⟨l, hlm, hcl⟩ := castAll_mem d hc e he
+    exact castLeaf_lt (hw l hlm) hcl
+  have wf : WF d dims bw (obsBits bw elems) := by
+    refine ⟨hbw, by simp [obsBits, hl, leaves_length hs], ?_⟩
+    intro x hx
+    simp only [obsBits, List.mem_map] at hx
+    obtain ⟨u, _, rfl⟩ := hx
+    exact Nat.mod_lt _ (Nat.two_pow_pos bw)
+  have lg : Legal d dims bw (obsBits bw elems) (.array d dims elems) := Legal.array elems hu rfl
+  exact ⟨wf, lg, C04_field_agree wf lg⟩
+
+/-- **C04_pytensor_float_depth** (observation D381, the inference quirk as a theorem): without a
+    dtype, Python floats become FLOAT (binary32, each value ROUNDED) when they are given as one
+    scalar or as one flat sequence, but DOUBLE (binary64, the bit patterns unchanged) as soon as
+    they are nested two or more levels deep -- the explicit `float32` default of the inference chain
+    only looks at the items of the outermost sequence. -/
+theorem C04_pytensor_float_depth :
+    (∀ b, pyTensor (.leaf (.float b)) none = .numeric .float [] [encodeF 8 23 (decode64 b)]) ∧
+    (∀ (xs : PyList), xs ≠ .nil → xs.toList.all PyVal.isFloatLeaf = true →
+      ∃ elems, pyTensor (.seq xs) none = .numeric .float [xs.toList.length] elems) ∧
+    (∀ (v : PyVal) (n m : Nat) (rest : List Nat), npShape v = some (n :: m :: rest) →
+      leaves v ≠ [] → allFloat (leaves v) = true →
+      pyTensor v none = .numeric .double (n :: m :: rest) ((leaves v).map Leaf.floatBits)) :=
+  ⟨pyTensor_scalar_float, pyTensor_flat_float, pyTensor_nested_float⟩
+
+/-- **C04_pytensor_int_depth**: Python ints (inside the int64 range) become INT64 at ANY nesting
+    depth -- the explicit default and numpy's own discovery coincide for them -- and the elements
+    are their two's complements. -/
+theorem C04_pytensor_int_depth (v : PyVal) (dims : List Nat) (hs : npShape v = some dims)
+    (hne : leaves v ≠ []) (hi : allInt64 (leaves v) = true) :
+    pyTensor v none = .numeric .int64 dims ((leaves v).map (fun l => wrap 64 l.intValue)) :=
+  pyTensor_int64 v dims hs hne hi
+
+/-- **C04_pytensor_errors**: an empty top-level sequence without a dtype raises `ValueError`
+    (nothing to infer from); an inhomogeneous nesting raises `ValueError` for every dtype except
+    STRING and UNDEFINED (numpy's shape discovery, before any scalar is converted); `dtype=UNDEFINED` raises
+    `TypeError`. -/
+theorem C04_pytensor_errors :
+    pyTensor (.seq .nil) none = .raised "ValueError" ∧
+    (∀ (v : PyVal) (dt : Option DType), npShape v = none → dt ≠ some .string → dt ≠ some .undefined →
+      pyTensor v dt = .raised "ValueError") ∧
+    (∀ v : PyVal, (∀ r, maybeString v (some .undefined) ≠ some r) ∧ pyTensor v (some .undefined) = .raised "TypeError") :=
+  ⟨rfl, pyTensor_ragged, fun v => ⟨by simp [maybeString], by simp [pyTensor, maybeString]⟩⟩
+
+/-- **C04_pytensor_string**: text / bytes data (every scalar a `str` or `bytes`, a homogeneous
+    nesting, and either at least one scalar or `dtype=STRING`) becomes the `StringTensor` of the
+    UTF-8 / byte strings with the discovered shape: a legal string representation
+    (`C04_string_agree` applies). -/
+theorem C04_pytensor_string (v : PyVal) (dt : Option DType) (dims : List Nat) (hs : npShape v = some dims)
+    (ht : (leaves v).all Leaf.isText = true) (hdt : dt = none ∨ dt = some .string)
+    (hne : leaves v ≠ [] ∨ dt = some .string) :
+    pyTensor v dt = .str (.objArr ((leaves v).map Leaf.encode) dims) ∧
+    StrTensor.SLegal ((leaves v).map Leaf.encode) dims (.objArr ((leaves v).map Leaf.encode) dims) :=
+  ⟨pyTensor_text v dt dims hs ht hdt hne, StrTensor.SLegal.objArr⟩
+
+/-! non-vacuity and concreteness: the observed quirk, conversions, errors -/
+
+-- ir.tensor([1.0]) is FLOAT, ir.tensor([[1.0]]) is DOUBLE, ir.tensor([[]]) is DOUBLE of shape [1, 0]
+example : pyTensor (.seq (.cons (.leaf (.float 0x3FF0000000000000)) .nil)) none = .numeric .float [1] [0x3F800000] :=
+  rfl
+example : pyTensor (.seq (.cons (.seq (.cons (.leaf (.float 0x3FF0000000000000)) .nil)) .nil)) none
+    = .numeric .double [1, 1] [0x3FF0000000000000] := rfl
+example : pyTensor (.seq (.cons (.seq .nil) .nil)) none = .numeric .double [1, 0] [] := rfl
+example : pyTensor (.seq .nil) (some .float) = .numeric .float [0] [] := rfl
+-- 0.1 rounds to 0x3DCCCCCD in binary32, 0x2E66 in binary16, 0x3DCD in bfloat16 (through float32)
+example : castLeaf .float (.float 0x3FB999999999999A) = .ok 0x3DCCCCCD := by decide
+example : castLeaf .float16 (.float 0x3FB999999999999A) = .ok 0x2E66 := by decide
+example : castLeaf .bfloat16 (.float 0x3FB999999999999A) = .ok 0x3DCD := by decide
+-- double rounding: 2^60 + 2^36 + 1 goes through binary64 on its way to binary32 (ties to even: down)
+example : castLeaf .float (.int (2 ^ 60 + 2 ^ 36 + 1)) = .ok 0x5D800000 := by decide
+-- bfloat16 takes a Python int through float32 directly
+example : castLeaf .bfloat16 (.int (2 ^ 60 + 2 ^ 52 + 2 ^ 36 + 1)) = .ok 0x5D81 := by decide
+-- numpy integer types reject what does not fit, the ml_dtypes 4-bit types wrap
+example : castLeaf .int8 (.int 128) = .err "OverflowError" := by decide
+example : castLeaf .int4 (.int (-9)) = .ok 7 := by decide
+example : castLeaf .int2 (.float 0x3FF8000000000000) = .err "OverflowError" := by decide
+example : castLeaf .int8 (.float 0x3FFB333333333333) = .ok 1 := by decide
+-- mixed nesting: bool + int + float promote to DOUBLE; an int beyond int64 becomes UINT64
+example : pyTensor (.seq (.cons (.leaf (.bool true)) (.cons (.leaf (.int 2)) (.cons (.leaf (.float 0x4004000000000000)) .nil)))) none
+    = .numeric .double [3] [0x3FF0000000000000, 0x4000000000000000, 0x4004000000000000] := rfl
+example : pyTensor (.seq (.cons (.seq (.cons (.leaf (.int (2 ^ 63))) .nil)) .nil)) none = .numeric .uint64 [1, 1] [2 ^ 63] :=
+  rfl
+-- inhomogeneous nesting; None becomes the degenerate STRING tensor (observation D382)
+example : pyTensor (.seq (.cons (.leaf (.int 1)) (.cons (.seq (.cons (.leaf (.int 2)) .nil)) .nil))) none
+    = .raised "ValueError" := rfl
+example : pyTensor (.leaf .none) none = .degenerate (some []) := rfl
+-- the hypotheses of C04_pytensor_agree are satisfiable
+example : ∀ l ∈ leaves (.seq (.cons (.leaf (.float 0x3FF0000000000000)) .nil)), l.wf = true := by decide
+example : getAt (.seq (.cons (.seq (.cons (.leaf (.int 5)) (.cons (.leaf (.int 6)) .nil))) .nil)) [0, 1] = some (.int 6) := by
+  decide
+
+end IrVerif.PyTensor
